@@ -763,6 +763,10 @@ class Gen:
             f, ret = self.PURE_M[(rt, name)]
             al = [self.pure(a, env)[0] for a in args]
             return (f"({f} {rl} {' '.join(al)})", ret)
+        if rt in NATTY and name in ("saturating_add", "saturating_sub") and len(args) == 1:
+            bits = {"u8": 8, "u32": 32, "u64": 64, "usize": 64}[rt]
+            al, at_ = self.pure(args[0], env)
+            return (f"(uN_{name} {bits} {rl} {as_nat(al, at_)})", rt)
         if rt == "I256" and name == "to_i128" and not args:
             return (f"(i256_to_i128 {rl})", "Option<i128>")
         if rt.startswith("Option<") and name == "map" and len(args) == 1:
@@ -833,6 +837,11 @@ class Gen:
                     ty = at if at != "int" else bt
                     if ty in ("int", "Wad"):
                         ty = "i128"
+                    if ty in NATTY and e[1] in ("+", "-", "*"):
+                        bits = {"u8": 8, "u32": 32, "u64": 64, "usize": 64}[ty]
+                        v = self.fresh()
+                        opn = {"+": "add", "-": "sub", "*": "mul"}[e[1]]
+                        return f"(Comp.bind (uN_{opn} {bits} {as_nat(a, at)} {as_nat(b, bt)}) fun {v} =>\n {k(v, ty)})"
                     if ty != "i128":
                         raise Unsupported(f"operator {e[1]} on {ty}")
                     v = self.fresh()
